@@ -97,7 +97,21 @@ void harness (void)
     { pixman_bool_t b; VP_SYM (b); pixman_image_set_source_clipping (&img, b); }
 #elif SETTER == 5
     { int k, x, y; VP_SYM (k); VP_SYM (x); VP_SYM (y); VP_ASSUME (x >= -32768 && x <= 32767 && y >= -32768 && y <= 32767);
-      pixman_image_set_alpha_map (&img, k == 0 ? NULL : k == 1 ? &amap1 : &amap2, x, y); }
+      /* bookkeeping invariant of alpha maps (a stale alpha_count makes a LATER set_alpha_map on the former map a silent no-op,
+       * i.e. history-dependent rendering): alpha_count / ref_count of a map == other users + (img uses it) */
+      int e1, e2, u1 = img.common.alpha_map == &amap1.bits, own; VP_SYM (e1); VP_SYM (e2); VP_SYM (own); VP_ASSUME (e1 >= 0 && e1 <= 3 && e2 >= 0 && e2 <= 3 && own >= 0 && own <= 2);
+      amap1.common.alpha_count = e1 + u1; amap1.common.ref_count = 1 + e1 + u1; amap2.common.alpha_count = e2; amap2.common.ref_count = 1 + e2;
+      img.common.alpha_count = own;	/* img itself serves as alpha map of `own` other images */
+      VP_ASSUME (!(own > 0 && u1));	/* an image that is an alpha map has none of its own (refused by the setter) */
+      pixman_image_t *req = k == 0 ? NULL : k == 1 ? &amap1 : &amap2;
+      pixman_image_set_alpha_map (&img, req, x, y);
+      int n1 = img.common.alpha_map == &amap1.bits, n2 = img.common.alpha_map == &amap2.bits;
+      VP_ASSERT (amap1.common.alpha_count == e1 + n1 && amap2.common.alpha_count == e2 + n2, "alpha_count of every map == number of images using it, after any replace/attach/detach");
+      VP_ASSERT (amap1.common.ref_count == 1 + e1 + n1 && amap2.common.ref_count == 1 + e2 + n2, "ref_count of every map follows its users");
+      if (own == 0 || req == NULL)
+	  VP_ASSERT (img.common.alpha_map == (bits_image_t *) req && (req == NULL || (img.common.alpha_origin_x == x && img.common.alpha_origin_y == y)), "set_alpha_map establishes the requested map and origin");
+      else
+	  VP_ASSERT (img.common.alpha_map == NULL, "an image in use as an alpha map is refused a map of its own"); }
 #elif SETTER == 6
     { pixman_bool_t b; VP_SYM (b); pixman_image_set_component_alpha (&img, b); VP_ASSERT (img.common.component_alpha == b, "set_component_alpha establishes the requested value"); }
 #elif SETTER == 7
